@@ -92,13 +92,19 @@ func execRun(in runIn, ev func(k string, f any)) []core.Violation {
 		sizeA = prefix + 1 + rng.Intn(1+maxF/4)
 		sizeB = prefix + 1 + rng.Intn(1+maxF/4)
 	}
+	// the first run of every recording is an honest one on a long log at height 1: the records looked up lie in the
+	// level-0 tiles number 999, 1000 and 1001 (the thousand is where tile paths get a second group of digits)
+	long := in.Run == 0 && !in.Forked
+	if long {
+		h, sizeA = 1, 2004+rng.Intn(3)
+	}
 	w := sumworld.New(h, prefix, sizeA, sizeB)
 	served := map[string]int{"A": sizeA}
 	if in.Forked {
 		served["B"] = sizeB
 	}
 	// served heads may start smaller and grow
-	if rng.Intn(2) == 0 {
+	if rng.Intn(2) == 0 && !long {
 		for tl := range served {
 			lo := prefix
 			if lo < 1 {
@@ -108,7 +114,7 @@ func execRun(in runIn, ev func(k string, f any)) []core.Violation {
 		}
 	}
 	cfg0 := sumworld.HeadLabel{Kind: "empty", Tl: "P"}
-	if rng.Intn(3) == 0 {
+	if rng.Intn(3) == 0 && !long {
 		tl := "A"
 		if in.Forked && rng.Intn(2) == 0 {
 			tl = "B"
@@ -120,6 +126,9 @@ func execRun(in runIn, ev func(k string, f any)) []core.Violation {
 	pFault := 0.0
 	if rng.Intn(10) >= 3 {
 		pFault = 0.02 + rng.Float64()*0.15
+	}
+	if long {
+		pFault = 0
 	}
 	if in.Forked {
 		pFault = 0 // the fork itself is the adversary; C01 covers corrupted responses
@@ -253,6 +262,9 @@ func execRun(in runIn, ev func(k string, f any)) []core.Violation {
 			minServed = ops.served["B"]
 		}
 		k := rng.Intn(minServed)
+		if long {
+			k = 1997 + (i*3)%(minServed-1997)
+		}
 		if len(prev) > 0 && rng.Intn(4) == 0 {
 			k = prev[rng.Intn(len(prev))]
 		}
